@@ -82,6 +82,22 @@ theorem C01_trace_vertex (b : B) (m : Machine) (h : Agree b m) (v : P3) (hh : b.
   cases hrel : b.rel <;> cases a <;>
     simp_all [Pt.get, Pt.resolve, Pt.mk', Pt.combine, Pt.sub] <;> grind
 
+/-- **"Up to the rounding of the configured decimal places"**: let every axis word be replaced by a rounded value
+    within ε of it (ε = half a unit of the last decimal place, C08_number_error).  The machine executing the *rounded*
+    program knows exactly the same axes as the machine executing the exact one (hence as the builder, C01_agree_run),
+    and on each of them its coordinate differs by at most the budget: an absolute word (G0/G1 in G90, G92) resets the
+    axis error to ε, every relative word (G0/G1 in G91) adds ε, everything else leaves it unchanged. -/
+theorem C01_rounding (r : Rat → Rat) (ε : Rat) (hr : ∀ x, -ε ≤ r x - x ∧ r x - x ≤ ε) (ops : List Op) (b : B) (m : Machine) :
+    Near (budgetRun ε m (fun _ => 0) (run b ops).2) (Machine.run m (run b ops).2)
+      (Machine.run m ((run b ops).2.map (roundStmt r))) := by
+  apply rounding_run r ε hr
+  refine ⟨rfl, fun a => ?_⟩
+  cases m.pos.get a <;> simp <;> grind
+
+/-- in absolute mode a single rounded word leaves the axis within ε -/
+example : budget { rel := false } { codes := [.G1], ax := ⟨some 1, none, none⟩ } (1 / 200000) (fun _ => 7) .x = 1 / 200000 := by
+  decide +kernel
+
 /-! Non-vacuity: G92, relative moves, nested contexts, absolute bypass, probe, home. -/
 example : (runBM ({}, {}) [.setAxis ⟨some (.fin 0), some (.fin 0), some (.fin 0)⟩ [], .setDist true,
       .move false { x := some (.fin (3 / 2)) } [] 0, .enterCtx false, .move true { x := some (.fin 10) } [] 0,
